@@ -76,6 +76,8 @@ class Contract:
             elif name == "ensures":
                 self.ensures.append(self._clause(call))
             elif name in ("raises", "may_raise", "ensures_raise"):
+                if len(call.args) < 1 or not isinstance(call.args[0], ast.Name) or (len(call.args) < 2 and not any(k.arg == "when" for k in call.keywords)):
+                    raise SyntaxError(f"{self.file}:{st.lineno}: {name}(ExceptionClass, condition, ..) expected")  # never drop a clause silently
                 exc = ast.unparse(call.args[0])
                 cl = self._clause(call, 1)
                 getattr(self, name).append((exc, cl))
